@@ -90,7 +90,7 @@ func c12Verify(pk *gabikeys.PublicKey, p *ProofD) (accepted, panicked bool) {
 func TestVerifC12Crypto(t *testing.T) {
 	r := vkit.Start(t, "C12", "crypto-layer", 240*time.Second, 1200*time.Second)
 	defer r.Finish()
-	r.Rule = "credential (50, tag, 20, tag) x disclosure sets x true statements (>=,<=; 3 and 4 squares; factors 1,3) on attributes 1 and 3: honest proofs; false statements at bound-+1 must not be creatable; every single-field alteration of every range proof (Cs, ds, vs, v5, l_d, sign, a, k incl. k moved across the boundary); every transplant (to another hidden index, a disclosed index below / above the largest hidden index, unused base, len(R), 1000, -1; from another credential; moved and copied, also with the non-transported attribute-response field pre-set by the sender); consistent-lie forgeries (a well-formed range proof about a value satisfying the false statement, with the attribute's or a fresh randomiser, carrying its own response); three verification routes (wire copy, wire copy in a list, Go objects handed over directly), each verifying its object twice; non-trivial = distinct (base proof, alteration); oracle (semantic): accepted => every carried range proof is on a hidden existing index and its reported statement is true of the signed value; honest => accepted"
+	r.Rule = "credential (50, tag, 20, tag) x disclosure sets x true statements (>=,<=; 3 and 4 squares; factors 1,3) on attributes 1 and 3: honest proofs; false statements at bound-+1 must not be creatable; every single-field alteration of every range proof (Cs, ds, vs, v5, l_d, sign, a, k incl. k moved across the boundary); every transplant (to another hidden index, a disclosed index below / above the largest hidden index, unused base, len(R), 1000, -1; from another credential; moved and copied, also with the non-transported attribute-response field pre-set by the sender); forgeries by omission (a zero-valued attribute mentioned neither as hidden nor as disclosed, a false range proof at the largest hidden index); consistent-lie forgeries (a well-formed range proof about a value satisfying the false statement, with the attribute's or a fresh randomiser, carrying its own response); three verification routes (wire copy, wire copy in a list, Go objects handed over directly), each verifying its object twice; non-trivial = distinct (base proof, alteration); oracle (semantic): accepted => every carried range proof is on a hidden existing index and its reported statement is true of the signed value; honest => accepted"
 	table := rangeproof.GenerateSquaresTable(4096)
 	for _, keyName := range vkit.Pick([]string{"toyA"}, []string{"toyA", "k1024a"}) {
 		k := vfK(keyName)
@@ -190,6 +190,73 @@ func TestVerifC12Crypto(t *testing.T) {
 								c12Judge(r, attrs, q, "forged-degenerate-commitments", map[string]any{"key": keyName, "forgery": desc})
 							}
 						}
+					}
+				}
+			}
+		}
+		// forgery by omission: a credential with a zero-valued attribute below the attacked one; the holder
+		// gives the zero attribute the randomiser 0 and mentions it neither as hidden nor as disclosed
+		// (R_i^0 = 1, the equation still holds), so the proof mentions fewer indices than its largest hidden
+		// index + 1, and attaches a range proof with a false bound at that largest index
+		{
+			credZ := vfMint(k, vfTag("c12-secretZ"), []*big.Int{vfInt(0), vfInt(5)}, 5)
+			for _, nsq := range []int{3, 4} {
+				for _, rpKind := range []string{"degenerate", "lie"} {
+					if _, mine := r.Next(); !mine {
+						continue
+					}
+					r.Eval()
+					desc := fmt.Sprintf("zero attribute omitted, %s range proof (%d squares) claiming a2 >= 1000 at the largest hidden index", rpKind, nsq)
+					r.Nontrivial(keyName + "|" + desc)
+					b, err := credZ.CreateDisclosureProofBuilder([]int{}, nil, false)
+					if err != nil {
+						r.HarnessError("builder: %v", err)
+						return
+					}
+					b.attrRandomizers[1] = vfInt(0)
+					a, kk := uint(1), vfInt(1000)
+					var sp rangeproof.SquareSplitter
+					if nsq == 3 {
+						a, kk, sp = 4, vfInt(3998), table
+					}
+					var forged *ProofD
+					pan, _ := vkit.Guard(func() {
+						forged = vfForge(b, pk, func(p *ProofD) {
+							delete(p.AResponses, 1)
+							var rp *rangeproof.Proof
+							if rpKind == "degenerate" {
+								rp = &rangeproof.Proof{Ld: 8, Sign: 1, A: a, K: kk, V5Response: vfInt(7)}
+								for i := 0; i < nsq; i++ {
+									rp.Cs = append(rp.Cs, vfInt(0))
+									rp.DResponses = append(rp.DResponses, vfInt(7))
+									rp.VResponses = append(rp.VResponses, vfInt(7))
+								}
+							} else {
+								// an honest-looking proof about another value (1001) with a randomiser of its own
+								st, err := rangeproof.NewProofStructure(2, 1, 1, vfInt(1000), sp)
+								if err != nil {
+									panic(err)
+								}
+								_, commit, err := st.CommitmentsFromSecrets(pk, vfInt(1001), vfTag("c12-omit-rnd"))
+								if err != nil {
+									panic(err)
+								}
+								rp = st.BuildProof(commit, p.C)
+							}
+							p.RangeProofs = map[int][]*rangeproof.Proof{2: {rp}}
+						}, false)
+					})
+					if pan || forged == nil {
+						r.Outcome("omission:no-fixed-point")
+						continue
+					}
+					acc, _ := c12Verify(pk, forged)
+					r.Outcome(fmt.Sprintf("omission:fixed-point:accepted=%v", acc))
+					if acc {
+						q := &ProofD{}
+						vfJSONCopy(forged, q)
+						q.Verify(pk, vfContext, vfNonce, false)
+						c12Judge(r, credZ.Attributes, q, "forged-by-omitting-a-zero-attribute", map[string]any{"key": keyName, "forgery": desc})
 					}
 				}
 			}
